@@ -4,6 +4,7 @@
   and hold for every fuel, every inner behaviour (unbounded nesting) and every ending.
 -/
 import GojaModel.C03.Lemmas6
+import GojaModel.C03.AsyncField
 
 namespace GojaModel.C03
 
@@ -254,6 +255,48 @@ theorem idle_after_any_history (fuel : Nat) (h : List (TopApi × Beh)) (m : Nat)
   | cons c rest ih =>
     obtain ⟨k, b⟩ := c
     exact ih _ (idle_after_any_api_call fuel k b s hfresh).2.1
+
+/-! ## vm.curAsyncRunner -/
+
+/-- Idle including `vm.curAsyncRunner == nil` (the field the async stack-trace capture reads at depth 0) -/
+def IdleAll (s : Vm) : Prop := IdleCtl s ∧ s.curAsync = false
+
+theorem fresh_idleAll (m : Nat) : IdleAll (Vm.fresh m) :=
+  ⟨((idle_iff _).mp (fresh_idle m)).1, rfl⟩
+
+/-- the continuation of an async function runs with the field set, and the deferred function of
+asyncRunner.onFulfilled / onRejected clears it however the continuation ends — for any interpreter -/
+theorem asyncResume_sets_then_clears (runF : RunF) (id : Nat) (s : Vm) :
+    asyncResumeCA runF id s =
+      ((asyncResume runF id { s with curAsync := true }).1,
+       { (asyncResume runF id { s with curAsync := true }).2 with curAsync := false }) := rfl
+
+/-- **curAsyncRunner_clear_after_any_api_call**: with the field clear before, it is clear after ANY API call with
+ANY inner behaviour (async continuations run from the job queue, nested API calls from inside a continuation,
+interrupts, stack overflows, uncatchable endings inside a continuation) -/
+theorem curAsyncRunner_clear_after_any_api_call (fuel : Nat) (k : TopApi) (b : Beh) (s : Vm)
+    (h : s.curAsync = false) : (apiCall fuel k b s).2.curAsync = false :=
+  apiCall_ca fuel k b s h
+
+/-- … and the same at every node inside a call, at every fuel -/
+theorem curAsyncRunner_clear_after_any_node (fuel : Nat) (b : Beh) (s : Vm) (h : s.curAsync = false) :
+    (run fuel b s).2.curAsync = false :=
+  run_ca fuel b s h
+
+/-- the idle theorem with the field included -/
+theorem idleAll_after_any_api_call (fuel : Nat) (k : TopApi) (b : Beh) (s : Vm) (hs : IdleAll s) :
+    IdleAll (apiCall fuel k b s).2 :=
+  ⟨(idle_after_any_api_call fuel k b s hs.1).2.1, apiCall_ca fuel k b s hs.2⟩
+
+theorem idleAll_after_any_history (fuel : Nat) (h : List (TopApi × Beh)) (m : Nat) :
+    IdleAll (runHistory fuel h (Vm.fresh m)) := by
+  have hfresh := fresh_idleAll m
+  generalize Vm.fresh m = s at hfresh
+  induction h generalizing s with
+  | nil => exact hfresh
+  | cons c rest ih =>
+    obtain ⟨k, b⟩ := c
+    exact ih _ (idleAll_after_any_api_call fuel k b s hfresh)
 
 /-! ## generators: suspend / resume -/
 
